@@ -20,6 +20,7 @@ package main
 import (
 	"context"
 	"net"
+	"sync/atomic"
 	"syscall"
 	"time"
 
@@ -88,21 +89,27 @@ func runUntrusted(c *Case) ([]Obs, any) {
 				_, msg, _, err := wire.ReadMessageN(conn, wire.ProtocolVersion, btcnet)
 				_, isVersion := msg.(*wire.MsgVersion)
 				me := wire.NewNetAddressIPPort(net.IPv4(127, 0, 0, 1), 8333, 0)
-				conn.SetWriteDeadline(time.Now().Add(2 * time.Second))
 				wire.WriteMessageN(conn, wire.NewMsgVersion(me, me, 7, 0), wire.ProtocolVersion, btcnet)
 				return Obs{OK, 1, b2i(err == nil && isVersion)}
 			case "ufill":
-				sent := 0
+				// The pings are written by their own goroutine WITHOUT a deadline: a write that blocks (the
+				// node's reader is slow, or blocked as intended) simply resumes or stays blocked - a write
+				// cut off by a deadline would leave half a message in the stream and the node would drop
+				// the connection for a framing error.  The goroutine ends when the connection is closed.
+				var sent, stopFill int64
+				cn := conn
+				go func() {
+					for atomic.LoadInt64(&stopFill) == 0 {
+						if _, err := wire.WriteMessageN(cn, wire.NewMsgPing(uint64(atomic.LoadInt64(&sent))), wire.ProtocolVersion, btcnet); err != nil {
+							return
+						}
+						atomic.AddInt64(&sent, 1)
+					}
+				}()
 				full := false
 				deadline := time.Now().Add(90 * time.Second)
 				for time.Now().Before(deadline) && !full {
-					for i := 0; i < 200; i++ {
-						conn.SetWriteDeadline(time.Now().Add(200 * time.Millisecond))
-						if _, err := wire.WriteMessageN(conn, wire.NewMsgPing(uint64(sent)), wire.ProtocolVersion, btcnet); err != nil {
-							break // the node has stopped reading: its reader is blocked
-						}
-						sent++
-					}
+					time.Sleep(20 * time.Millisecond)
 					n, cp := un.VerifOutgoingFill()
 					if n == cp && cp > 0 {
 						time.Sleep(150 * time.Millisecond)
@@ -110,7 +117,8 @@ func runUntrusted(c *Case) ([]Obs, any) {
 						full = n == cp
 					}
 				}
-				extra["pings"] = sent
+				atomic.StoreInt64(&stopFill, 1)
+				extra["pings"] = atomic.LoadInt64(&sent)
 				return Obs{OK, b2i(full)}
 			case "ureset":
 				if tc, ok := conn.(*net.TCPConn); ok {
